@@ -87,7 +87,9 @@ def run_plot(toks, state):
     plt.savefig = recording_savefig
     tmp = tempfile.mkdtemp(prefix="ciderverif_plot_")
     try:
-        fname = os.path.join(tmp, "out." + a.get("fmt", "png"))
+        # the file NAME may carry another extension than the requested format (or none): the format argument decides what is written
+        ext = a.get("fname_ext", a.get("fmt", "png"))
+        fname = os.path.join(tmp, "out" + ("." + ext if ext else ""))
         saved = None
         with contextlib.redirect_stdout(io.StringIO()), contextlib.redirect_stderr(io.StringIO()):
             kw = {k: a[k] for k in ("label", "title", "legendOn", "xLim", "yLim", "fontSize") if k in a}
